@@ -917,6 +917,10 @@ func (w *World) verifyFunction(fc *FuncContract) (res *FnResult) {
 }
 
 func (w *World) verifyFunctionWith(fc *FuncContract, splitVal *uint64, tag string) (res *FnResult) {
+	return w.verifyFunctionMode(fc, splitVal, tag, 0)
+}
+
+func (w *World) verifyFunctionMode(fc *FuncContract, splitVal *uint64, tag string, bmc int) (res *FnResult) {
 	res = &FnResult{Name: shortName(fc.Key), Key: fc.Key, Props: fc.Props, Trusted: fc.Trusted}
 	fn := w.findFunction(fc.Key)
 	if fn == nil {
@@ -927,6 +931,7 @@ func (w *World) verifyFunctionWith(fc *FuncContract, splitVal *uint64, tag strin
 		return
 	}
 	c := w.newCtx(res.Name, fc.Props)
+	c.bmc = bmc
 	defer func() {
 		res.Abstracts = c.abstracts
 		res.Notes = c.notes
